@@ -73,7 +73,10 @@ class FaultMegacomplex(Megacomplex):
                     # a model that redirects sys.stdout (without try/finally) and fails while its own stream is installed
                     import io
                     sys.stdout = io.StringIO()
-                FAULT.exc = InjectedFault(f"injected fault at calculate_matrix call {FAULT.calls}")
+                # messages as real exceptions have them: one line, none at all (a bare `raise NotImplementedError`), several lines
+                text = f"injected fault at calculate_matrix call {FAULT.calls}"
+                form = FAULT.calls % 3
+                FAULT.exc = InjectedFault(text) if form == 0 else (InjectedFault() if form == 1 else InjectedFault(text + "\ndetails: second line of the message"))
                 raise FAULT.exc
             matrix = np.full_like(matrix, np.nan)
         return labels, matrix
@@ -180,7 +183,11 @@ def fault_model(ndatasets=1, residual_function="variable_projection", link_clp=N
 def fault_parameters(start=(0.55, 1.1), nonneg=False):
     from glotaran.parameter import Parameters
     # nonneg: the second rate is optimised as its logarithm (the history then holds log-values that must be mapped back)
-    return Parameters.from_dict({"k": [["1", start[0]], ["2", start[1], {"non-negative": bool(nonneg)}]]})
+    p = Parameters.from_dict({"k": [["1", start[0]], ["2", start[1], {"non-negative": bool(nonneg)}]]})
+    # start values as a refit has them (result.get_scheme()): they carry the standard errors of the earlier fit, which belong to the caller
+    for i, q in enumerate(p.all()):
+        q.standard_error = 0.01 * (i + 1)
+    return p
 
 
 def fault_scheme(method="TrustRegionReflection", ndatasets=1, residual_function="variable_projection", link_clp=None,
